@@ -7,7 +7,7 @@ for src in sys.argv[1:]:
     ev = open(os.path.join(src, 'eval.txt')).read() if os.path.exists(os.path.join(src, 'eval.txt')) else ''
     m = json.load(open(os.path.join(src, 'meta.json')))
     conf = re.search(r'demo_without_patch_exit=(\d+) suite_with_patch_exit=(\d+) demo_with_patch_exit=(\d+)', ev)
-    checks = re.findall(r'check (C\d+) quick exit=(\d+): (\d+) violation line\(s\);\s*(.*)', ev)
+    checks = re.findall(r'check (C\d+) quick exit=(\d+): (\d+) violation line\(s\);[ \t]*(.*)', ev)
     ok = bool(conf) and conf.group(1) == '0' and conf.group(2) == '0' and conf.group(3) != '0'
     if not ok:
         print(name, 'NOT CONFIRMED', ev[:200]); continue
